@@ -52,6 +52,7 @@ package hdkeychain
 //@   ensures !old(k.isPrivate) ==> err == nil && result0 == k
 //@   ensures old(k.isPrivate) && err == nil ==> result0 != nil && fresh(result0) && !result0.isPrivate && result0.depth == k.depth && result0.childNum == k.childNum
 //@   ensures old(k.isPrivate) && err == nil ==> fresh(result0.key) && fresh(result0.chainCode) && fresh(result0.parentFP)
+//@   ensures old(k.isPrivate) && err == nil ==> !sameobj(result0.key, k.pubKey) && !sameobj(result0.key, k.key) && !sameobj(result0.chainCode, k.chainCode) && !sameobj(result0.parentFP, k.parentFP)
 //@   ensures old(k.isPrivate) && err == nil ==> len(result0.chainCode) == len(k.chainCode) && forall j :: 0 <= j && j < len(k.chainCode) ==> result0.chainCode[j] == k.chainCode[j]
 //@   ensures old(k.isPrivate) && err == nil ==> len(result0.parentFP) == len(k.parentFP) && forall j :: 0 <= j && j < len(k.parentFP) ==> result0.parentFP[j] == k.parentFP[j]
 //@   modifies k.pubKey
@@ -131,6 +132,7 @@ package hdkeychain
 //@ func hdkeychain.NewKeyFromString
 //@   ensures err == nil ==> result0 != nil && fresh(result0) && len(result0.version) == 4 && len(result0.parentFP) == 4 && len(result0.chainCode) == 32
 //@   ensures err == nil ==> (result0.isPrivate ==> len(result0.key) == 32) && (!result0.isPrivate ==> len(result0.key) == 33)
+//@   ensures err == nil && result0.isPrivate ==> 0 < big.be(result0.key, 32) && big.be(result0.key, 32) < 115792089237316195423570985008687907852837564279074904382605163141518161494337
 //@   ensures err == nil ==> fresh(result0.key) && fresh(result0.chainCode) && fresh(result0.parentFP) && fresh(result0.version)
 //@   ensures err != nil ==> result0 == nil
 //@   modifies nothing
